@@ -1,9 +1,16 @@
 import CelmaVerif.Lemmas.DynBitsetRun
+import CelmaVerif.Lemmas.DynBitsetWalk
 /-
   C12 — the dynamic bitset behaves like a growable reference bit vector.
   Property theorems only.  Model: Model/DynBitset.lean (loops and index expressions of
   dynamic_bitset.cpp / dynamic_bitset_iterator.hpp as coded, every `mData[i]` checked);
   reference: `DynBitset.Ref` in the same file; lemmas: Lemmas/DynBitset*.lean.
+
+  Range: the code computes the growth `(pos + 1) * 1.5` in `double` and `size + pos`, `idx + pos` in
+  `size_t`; the model follows that arithmetic exactly for positions and shift distances below
+  `posLimit` = 2^51 and is silent (`oob "… not modelled"`) beyond (`C12_out_of_range_not_modelled`).
+  Every theorem about a positional modifier or a shift therefore carries `… < posLimit` as an
+  explicit hypothesis.
 -/
 namespace CelmaVerif.Props.C12
 open CelmaVerif CelmaVerif.DynBitset
@@ -28,25 +35,27 @@ theorem C12_observers_agree (v : Bits) : observe v = Ref.observe v :=
     observations agree, and equality between any two bitsets agrees.
     Partial: sequences containing the argument-less `reset()` are excluded (finding
     `reset-all-empties`, see `C12_finding_reset_all`); they are covered by
-    `C12_refines_clearing_reset` for the reading "reset() empties the bitset". -/
-theorem C12_refines_partial (ops : List Op) (h : ∀ op ∈ ops, op.isResetAll = false) :
+    `C12_refines_clearing_reset` for the reading "reset() empties the bitset".
+    Hypothesis `hr`: every position and shift distance is below 2^51 (`Op.arg`, `posLimit`). -/
+theorem C12_refines_partial (ops : List Op) (h : ∀ op ∈ ops, op.isResetAll = false)
+    (hr : ∀ op ∈ ops, op.arg < posLimit) :
     ∃ st, run Store.init ops = .ok st ∧
       (∀ r, st r = Ref.run false Store.init ops r) ∧
       (∀ r, observe (st r) = Ref.observe (Ref.run false Store.init ops r)) ∧
       (∀ r s, DynBitset.eq (st r) (st s)
                 = decide (Ref.run false Store.init ops r = Ref.run false Store.init ops s)) := by
-  refine ⟨_, run_eq false ops Store.init (fun _ => h), fun _ => rfl, fun r => observe_eq _, ?_⟩
+  refine ⟨_, run_eq false ops Store.init (fun _ => h) hr, fun _ => rfl, fun r => observe_eq _, ?_⟩
   intro r s
   exact Bool.beq_eq_decide_eq _ _
 
 /-- The same for *every* sequence, `reset()` included, against the reference in which `reset()`
     empties the vector (what `mData.clear()` does and what the in-tree test relies on): apart from
     the meaning of `reset()` there is no difference between code and reference. -/
-theorem C12_refines_clearing_reset (ops : List Op) :
+theorem C12_refines_clearing_reset (ops : List Op) (hr : ∀ op ∈ ops, op.arg < posLimit) :
     ∃ st, run Store.init ops = .ok st ∧
       (∀ r, st r = Ref.run true Store.init ops r) ∧
       (∀ r, observe (st r) = Ref.observe (Ref.run true Store.init ops r)) := by
-  exact ⟨_, run_eq true ops Store.init (fun h => by cases h), fun _ => rfl, fun r => observe_eq _⟩
+  exact ⟨_, run_eq true ops Store.init (fun h => by cases h) hr, fun _ => rfl, fun r => observe_eq _⟩
 
 /-- The recorded finding: after `reset()` the model (= the code) has size 0, the reference bit
     vector keeps its four (cleared) bits; so the conclusion of `C12_refines_partial` is false for
@@ -64,26 +73,66 @@ theorem C12_finding_reset_all :
 
 /-! ### compound assignment = binary operator -/
 
-/-- For all operands (any two sizes) and *every* shift distance — zero, below, at and beyond the
-    size: the compound assignment leaves the same bitset as the binary operator returns, both
-    return normally (no access outside the vectors) and both are the reference result. -/
-theorem C12_compound_eq_binary (a b : Bits) (k : Nat) :
-    (andAssign a b = bitAnd a b ∧ andAssign a b = .ok (Ref.and a b)) ∧
-    (orAssign a b = bitOr a b ∧ orAssign a b = .ok (Ref.or a b)) ∧
-    (xorAssign a b = bitXor a b ∧ xorAssign a b = .ok (Ref.xor a b)) ∧
-    (shlAssign a k = shl a k ∧ shl a k = .ok (if k = 0 then a else Ref.shl a k)) ∧
-    (shrAssign a k = shr a k ∧ shr a k = .ok (Ref.shr a k)) :=
-  ⟨⟨rfl, andAssign_eq a b⟩, ⟨rfl, orAssign_eq a b⟩, ⟨rfl, xorAssign_eq a b⟩,
-   ⟨by rw [shlAssign_eq, shl_eq], shl_eq a k⟩, ⟨by rw [shrAssign_eq, shr_eq], shr_eq a k⟩⟩
+/-- For all operands (any two sizes) and *every* shift distance below 2^51 — zero, below, at and
+    beyond the size: the binary operator and the compound assignment are each the reference
+    operation on bit vectors (`Ref.and`: size of the left operand, missing bits of the right
+    operand zero; `Ref.or`/`Ref.xor`: size of the larger; `Ref.shl`: `k` zeros enter at the
+    bottom, the vector grows by `k`; `Ref.shr`: size kept, zeros enter at the top), both return
+    normally (no access outside the vectors) — hence they agree.
+    For `& | ^` the code is `auto copy( lhs); copy OP= rhs; return copy;`, so the model's binary
+    form *is* the compound form (`bitAnd := andAssign`, agreement by delegation); the content for
+    these three is the equality with the independent reference.  For the shifts the two forms are
+    different loops (fresh zero bitset + upward copy vs. resize + in-place downward copy + clearing
+    loop) and the agreement is a theorem about both. -/
+theorem C12_compound_eq_binary (a b : Bits) (k : Nat) (hk : k < posLimit) :
+    (bitAnd a b = .ok (Ref.and a b) ∧ andAssign a b = .ok (Ref.and a b)) ∧
+    (bitOr a b = .ok (Ref.or a b) ∧ orAssign a b = .ok (Ref.or a b)) ∧
+    (bitXor a b = .ok (Ref.xor a b) ∧ xorAssign a b = .ok (Ref.xor a b)) ∧
+    (shl a k = .ok (Ref.shl a k) ∧ shlAssign a k = .ok (Ref.shl a k)) ∧
+    (shr a k = .ok (Ref.shr a k) ∧ shrAssign a k = .ok (Ref.shr a k)) := by
+  have e : (if k = 0 then a else Ref.shl a k) = Ref.shl a k := by
+    split
+    · subst k; unfold Ref.shl; split <;> simp_all
+    · rfl
+  exact ⟨⟨andAssign_eq a b, andAssign_eq a b⟩, ⟨orAssign_eq a b, orAssign_eq a b⟩,
+    ⟨xorAssign_eq a b, xorAssign_eq a b⟩,
+    ⟨by rw [shl_eq a k hk, e], by rw [shlAssign_eq a k hk, e]⟩, ⟨shr_eq a k hk, shrAssign_eq a k hk⟩⟩
+
+/-- the reference operations of `C12_compound_eq_binary`, bit by bit (so that the statement above
+    does not rest on reading `Ref`): sizes and every bit of the five results -/
+theorem C12_reference_operators (a b : Bits) (k j : Nat) :
+    ((Ref.and a b).length = a.length ∧ (Ref.or a b).length = max a.length b.length ∧
+      (Ref.xor a b).length = max a.length b.length ∧
+      (Ref.shl a k).length = (if a = [] then 0 else a.length + k) ∧ (Ref.shr a k).length = a.length) ∧
+    (j < a.length → (Ref.and a b).getD j false = (a.getD j false && b.getD j false)) ∧
+    (j < max a.length b.length → (Ref.or a b).getD j false = (a.getD j false || b.getD j false)) ∧
+    (j < max a.length b.length → (Ref.xor a b).getD j false = (a.getD j false != b.getD j false)) ∧
+    (a ≠ [] → (Ref.shl a k).getD j false = (if j < k then false else a.getD (j - k) false)) ∧
+    ((Ref.shr a k).getD j false = (if j < a.length - k then a.getD (j + k) false else false)) := by
+  refine ⟨⟨mk_length _ _, mk_length _ _, mk_length _ _, ?_, refShr_length a k⟩,
+    fun h => mk_getD _ _ j h, fun h => mk_getD _ _ j h, fun h => mk_getD _ _ j h,
+    fun h => refShl_getD a k j h, ?_⟩
+  · by_cases h : a = []
+    · subst h; rfl
+    · rw [if_neg h, refShl_length a k h]
+  · exact refShr_getD a k j
 
 /-- shifting right by the size or more clears every bit and keeps the size (the case `>>=` got
     wrong before the repair) -/
-theorem C12_shr_beyond_size (a : Bits) (k : Nat) (h : a.length ≤ k) :
+theorem C12_shr_beyond_size (a : Bits) (k : Nat) (h : a.length ≤ k) (hk : k < posLimit) :
     shrAssign a k = .ok (List.replicate a.length false) ∧ shr a k = .ok (List.replicate a.length false) := by
   have : Ref.shr a k = List.replicate a.length false := by
     unfold Ref.shr
     rw [List.drop_eq_nil_of_le h, Nat.min_eq_right h]; rfl
-  rw [shrAssign_eq, shr_eq, this]; exact ⟨rfl, rfl⟩
+  rw [shrAssign_eq a k hk, shr_eq a k hk, this]; exact ⟨rfl, rfl⟩
+
+/-- Outside the range the model is silent: a positional modifier or a shift whose argument is
+    2^51 or more is answered `oob "… not modelled"` by the model, whatever the bitsets — no theorem
+    of this file says anything about the code there (`double` rounding of `(pos + 1) * 1.5`,
+    `size_t` wrap-around of `pos + 1`, `size + pos`, `idx + pos`). -/
+theorem C12_out_of_range_not_modelled (st : Store) (op : Op) (h : posLimit ≤ op.arg) :
+    ∃ w, step st op = .oob w :=
+  step_out_of_range st op h
 
 /-! ### iteration -/
 
@@ -116,8 +165,10 @@ theorem C12_iter_none (v : Bits) (h : ∀ i, v.getD i false = false) :
     outside the vector, for any position: they return normally; for `pos >= size` the bitset has
     grown to `⌊(pos+1)·3/2⌋ > pos` bits, the old bits are unchanged, the new ones are zero except
     the addressed one.  `test(pos)` and the const `operator[](pos)` throw `out_of_range` for
-    `pos >= size` and read bit `pos` otherwise. -/
-theorem C12_grow_or_throw (v : Bits) (pos : Nat) (val : Bool) :
+    `pos >= size` and read bit `pos` otherwise (these two for every position, no bound).
+    Hypothesis `hp`: the position is below 2^51, where the `double` computation of the new size
+    is exact. -/
+theorem C12_grow_or_throw (v : Bits) (pos : Nat) (val : Bool) (hp : pos < posLimit) :
     (∃ w, set v pos val = .ok w ∧ idxAssign v pos val = .ok w ∧ pos < w.length ∧
         (v.length ≤ pos → w.length = (pos + 1) * 3 / 2) ∧
         ∀ j, w.getD j false = if j = pos then val else v.getD j false) ∧
@@ -133,8 +184,8 @@ theorem C12_grow_or_throw (v : Bits) (pos : Nat) (val : Bool) :
   have hg : v.length ≤ pos → (Ref.grow v pos).length = (pos + 1) * 3 / 2 := by
     intro h; rw [grow_length, if_neg (by omega)]
   have hset : ∀ b, ((Ref.grow v pos).set pos b).length = (Ref.grow v pos).length := by intro b; simp
-  refine ⟨⟨_, set_eq v pos val, idxAssign_eq v pos val, ?_, ?_, ?_⟩, ⟨_, reset_eq v pos, ?_, ?_, ?_⟩,
-    ⟨_, flip_eq v pos, ?_, ?_, ?_⟩, ⟨_, idxRead_eq v pos, hl, hg, fun j => grow_getD v pos j⟩, ?_, ?_⟩
+  refine ⟨⟨_, set_eq v pos val hp, idxAssign_eq v pos val hp, ?_, ?_, ?_⟩, ⟨_, reset_eq v pos hp, ?_, ?_, ?_⟩,
+    ⟨_, flip_eq v pos hp, ?_, ?_, ?_⟩, ⟨_, idxRead_eq v pos hp, hl, hg, fun j => grow_getD v pos j⟩, ?_, ?_⟩
   · unfold Ref.set; rw [hset]; exact hl
   · intro h; unfold Ref.set; rw [hset]; exact hg h
   · intro j; unfold Ref.set; rw [getD_set _ _ _ _ hl, grow_getD]
@@ -148,6 +199,107 @@ theorem C12_grow_or_throw (v : Bits) (pos : Nat) (val : Bool) :
     rw [test_eq, idxConst_eq]; unfold Ref.test; rw [if_neg (by omega)]; exact ⟨rfl, rfl⟩
   · intro h
     rw [test_eq, idxConst_eq]; unfold Ref.test Ref.bit; rw [if_pos h]; exact ⟨rfl, rfl⟩
+
+/-! ### iterator decrement and the post forms; walks -/
+
+/-- `--` as coded.  Forward iterator standing on any position `c ≤ size` (a set position or
+    `end()`): `--it` returns normally and stands on the greatest set position below `c`; when
+    there is none it stands on `end()` (`--begin()` wraps to `end()`, what the in-tree test
+    `exceed_end` expects).  Reverse iterator standing on a position `c < size`: `--rit` stands on
+    the least set position above `c`, or on `rend()` when there is none.  `--rend()` stays at
+    `rend()` (unlike `--end()`, which finds the last set bit: `forward()` returns at once for the
+    position -1).  `++end()` and `++rend()` stay where they are. -/
+theorem C12_iter_decrement (v : Bits) :
+    (∀ c : Nat, c ≤ v.length → ∃ q : Nat, fwdDec v (c : Int) = .ok (q : Int) ∧
+      ((q < c ∧ v.getD q false = true ∧ ∀ j, q < j → j < c → v.getD j false = false) ∨
+       (q = v.length ∧ ∀ j, j < c → v.getD j false = false))) ∧
+    (∀ c : Nat, c < v.length →
+      (∃ q : Nat, revDec v (c : Int) = .ok (q : Int) ∧ c < q ∧ q < v.length ∧ v.getD q false = true ∧
+          ∀ j, c < j → j < q → v.getD j false = false) ∨
+      (revDec v (c : Int) = .ok (-1) ∧ ∀ j, c < j → j < v.length → v.getD j false = false)) ∧
+    revDec v (rendIt v) = .ok (rendIt v) ∧
+    forward v (endIt v) = .ok (endIt v) ∧ reverse v (rendIt v) = .ok (rendIt v) :=
+  ⟨fwdDec_spec v, revDec_spec v, revDec_rend v, forward_end v, reverse_rend v⟩
+
+/-- `++it; --it` brings a forward iterator back to the set position it stood on, also when `++`
+    reached `end()`; `++rit; --rit` brings a reverse iterator back unless `++` reached `rend()`. -/
+theorem C12_iter_inc_dec (v : Bits) (c : Nat) (hc : c < v.length) (hb : v.getD c false = true) :
+    (∃ q, forward v (c : Int) = .ok q ∧ fwdDec v q = .ok (c : Int)) ∧
+    (∃ q, reverse v (c : Int) = .ok q ∧ (q ≠ rendIt v → revDec v q = .ok (c : Int))) := by
+  constructor
+  · obtain ⟨q, g1, g2, g3, g4, _⟩ := forward_spec v c hc
+    refine ⟨q, g1, ?_⟩
+    obtain ⟨q', h1, h2⟩ := fwdDec_spec v q g3
+    rw [h1]
+    cases h2 with
+    | inl h =>
+      obtain ⟨h2, h3, h4⟩ := h
+      have : q' = c := by
+        by_cases hlt : q' < c
+        · have := h4 c hlt g2; rw [hb] at this; cases this
+        · by_cases hgt : c < q'
+          · have := g4 q' hgt h2; rw [h3] at this; cases this
+          · omega
+      rw [this]
+    | inr h =>
+      have := h.2 c g2; rw [hb] at this; cases this
+  · obtain ⟨r, g1, g2, g3, g4⟩ := reverse_spec v c (by omega)
+    refine ⟨_, g1, ?_⟩
+    intro hne
+    have hr : 0 < r := by
+      by_cases h0 : r = 0
+      · subst h0; exact absurd (by unfold rendIt; omega) hne
+      · omega
+    have hcast : (r : Int) - 1 = ((r - 1 : Nat) : Int) := by omega
+    rw [hcast]
+    cases revDec_spec v (r - 1) (by omega) with
+    | inl h =>
+      obtain ⟨q, h1, h2, h3, h4, h5⟩ := h
+      rw [h1]
+      have : q = c := by
+        by_cases hlt : q < c
+        · have := g3 q (by omega) hlt; rw [h4] at this; cases this
+        · by_cases hgt : c < q
+          · have := h5 c (by omega) hgt; rw [hb] at this; cases this
+          · omega
+      rw [this]
+    | inr h =>
+      have := h.2 c (by omega) hc; rw [hb] at this; cases this
+
+/-- Any walk — pre/post-increment and pre/post-decrement in any order and number, started at
+    `begin()` or `end()` (forward iterator) resp. `rbegin()` or `rend()` (reverse iterator) —
+    returns normally at every step (no exception, no access outside the vector, the loops
+    terminate) and the iterator always stands on a set position or on its end position
+    ("iterating past the end does not crash"); there is one output per operation.  The post forms
+    return a copy standing where the iterator stood before and move the iterator like the pre
+    forms (`C12_iter_post`). -/
+theorem C12_iter_walks (v : Bits) (fromEnd : Bool) (ops : List ItOp) :
+    (∃ l, fwdWalk v fromEnd ops = .ok l ∧ l.length = ops.length ∧
+      ∀ o ∈ l, ∃ c : Nat, o.pos = (c : Int) ∧ c ≤ v.length ∧ (c < v.length → v.getD c false = true)) ∧
+    (∃ l, revWalk v fromEnd ops = .ok l ∧ l.length = ops.length ∧
+      ∀ o ∈ l, ∃ r : Nat, o.pos = (r : Int) - 1 ∧ r ≤ v.length ∧ (0 < r → v.getD (r - 1) false = true)) :=
+  ⟨fwdWalk_ok v fromEnd ops, revWalk_ok v fromEnd ops⟩
+
+/-- post-increment / post-decrement: when the move returns `q`, the returned copy stands on the
+    old position and the iterator on `q` — the same position the pre form reaches. -/
+theorem C12_iter_post (move : Int → Res Int) (p q : Int) (h : move p = .ok q) :
+    postOp move p = .ok (p, q) := by
+  unfold postOp; rw [h]
+
+/-! ### `to_string( zero, one)` and the `std::bitset< N>` conversions -/
+
+/-- `to_string< char>( zero, one)` for any two characters: most significant bit first, `one` for a
+    set bit, `zero` otherwise; never writes outside the string. -/
+theorem C12_to_string_chars (v : Bits) (z o : Char) :
+    toStrWith v z o = .ok (v.reverse.map fun b => if b then o else z) :=
+  toStrWith_eq v z o
+
+/-- Construction from and assignment of a `std::bitset< N>` (`other` = its N bits): the result is
+    exactly these N bits — whatever the bitset held before the assignment — and the copy loops
+    stay inside both containers. -/
+theorem C12_from_bitset (v other : Bits) :
+    ofBitset other = .ok other ∧ assignBitset v other = .ok other :=
+  ⟨ofBitset_eq other, assignBitset_eq v other⟩
 
 /-- `to_ulong` returns the number whose binary digits are the bits when no bit at position 64 or
     above is set, and throws `overflow_error` otherwise (never reads outside the vector). -/
@@ -167,8 +319,27 @@ example : ∃ st, run Store.init [.new 0 [true, false, true], .flip 0 3, .shrA 0
     st 0 = [false, false, false, false, false, false] ∧ st 2 = [true, false, false, false, false, false] :=
   ⟨_, rfl, by decide, by decide⟩
 
--- the hypothesis of `C12_refines_partial` is satisfiable by a non-trivial history
+-- the hypotheses of `C12_refines_partial` are satisfiable by a non-trivial history
 example : ∀ op ∈ [Op.new 0 [true, false, true], .flip 0 3, .shrA 0 9], op.isResetAll = false := by decide
+example : ∀ op ∈ [Op.new 0 [true, false, true], .flip 0 3, .shrA 0 9], op.arg < posLimit := by decide
+-- … and the range hypothesis is not vacuous the other way round: beyond it the model is silent
+example : ∃ w, step Store.init (.set 0 (2 ^ 51) true) = .oob w := ⟨_, rfl⟩
+example : (65 : Nat) < posLimit := by decide
+
+-- decrement: `--end()` finds the last set bit, `--begin()` wraps to `end()`, `--rend()` stays
+example : fwdDec [false, true, false, true, false] 5 = .ok 3 := rfl
+example : fwdDec [false, true, false, true, false] 1 = .ok 5 := rfl
+example : revDec [false, true, false, true, false] 1 = .ok 3 := rfl
+example : revDec [false, true, false, true, false] 3 = .ok (-1) := rfl
+example : revDec [false, true, false, true, false] (-1) = .ok (-1) := rfl
+-- a walk with all four operators from `begin()`
+example : fwdWalk [false, true, false, true] false [.inc, .postDec, .dec, .postInc]
+    = .ok [⟨none, 3⟩, ⟨some 3, 1⟩, ⟨none, 4⟩, ⟨some 4, 4⟩] := rfl
+-- hypotheses of `C12_iter_inc_dec`
+example : (1 : Nat) < ([false, true, false, true] : Bits).length ∧ ([false, true, false, true] : Bits).getD 1 false = true := by decide
+-- other characters, bitset conversion
+example : toStrWith [true, false, false] '.' 'x' = .ok ['.', '.', 'x'] := rfl
+example : assignBitset [true, true, true, true, true] [false, true] = .ok [false, true] := rfl
 
 -- iteration over a bitset with set bits, and over an empty one
 example : iterate [false, true, false, true, true] = .ok [1, 3, 4] := rfl
